@@ -28,6 +28,16 @@ def gen_names(chk):
     # names that look like the beginning of a URI (the reverse direction recognises prefixes of "file:///")
     for w in ("file", "fil", "file:", "filename.txt", "files\\x", "file server\\share", "file\\x", "file:x", "file:/x", "file:\\x", "http:x", "File", "fi", "f"):
         names.append((0, S(w))); names.append((1, S(w.replace("\\", "/"))))
+    # every code point 1..255 at each of the first four positions (a conversion must not single out a character at an index:
+    # '|' behind a drive letter, ':' at index 1, ...), bare and behind the class-deciding prefixes
+    for b in range(1, 256):
+        for pos in range(0, 4):
+            for tail in ([], [0x62]):
+                core = [0x61] * pos + [b] + tail
+                names.append((0, core)); names.append((1, core))
+                if pos <= 1 or not quick:
+                    for pre in (S("C:\\"), S("\\\\srv\\"), S("d\\")): names.append((0, pre + core))
+                    names.append((1, [0x2f] + core)); names.append((1, S("d/") + core))
     def seg(L): return [rng.choice(ALPHA[:2] + ALPHA[5:] + [rng.randint(1, 255)]) for _ in range(L)]
     def clean(x, bad): return [c for c in x if c not in bad]
     for _ in range(1500 if quick else 60000):
@@ -53,6 +63,15 @@ def gen_uris(chk):
         for n in range(0, (3 if quick else 4) + 1):
             for t in itertools.product(TA, repeat=n):
                 out.append((1, pre + list(t))); out.append((0, pre + list(t)))
+    # every percent-encoded value (both hex cases) and every raw code point at each of the first three positions behind each prefix
+    HEXU = b"0123456789ABCDEF"; HEXL = b"0123456789abcdef"
+    for pre in pres[:6]:
+        for v in range(0, 256):
+            for pos in range(0, 3):
+                for hx in (HEXU, HEXL):
+                    out.append((pos % 2, pre + [0x61] * pos + [0x25, hx[v >> 4], hx[v & 15]] + [0x62]))
+                    out.append(((pos + 1) % 2, pre + [0x61] * pos + [0x25, hx[v >> 4], hx[v & 15]]))
+                if v: out.append((0, pre + [0x61] * pos + [v, 0x62])); out.append((1, pre + [0x61] * pos + [v, 0x62]))
     for _ in range(1000 if quick else 50000):
         L = rng.choice([4, 9, 30, 120])
         t = []
